@@ -55,6 +55,7 @@ def run(ctx):
     progcases.run_cases(ctx, name_cases(ctx) + make_cases(ctx, n) + gen.sweep_cases(ctx.rng, 1.0 if ctx.tier == 'thorough' else 0.2))
     progcases.run_cases(ctx, gen.membership_cases(ctx.rng, 80 if ctx.tier == 'quick' else 2000), check_model=False, want_stages=False)
     progcases.run_cases(ctx, gen.two_word_token_cases(), want_stages=False)
+    progcases.run_cases(ctx, gen.negated_comparison_cases(), check_model=False, want_stages=False)
     progcases.run_cases(ctx, gen.repeated_leaf_programs(ctx.rng, None if ctx.tier == 'thorough' else [2, 8, 21, 32, 64]), check_model=False, want_stages=False)
 
 
